@@ -432,6 +432,13 @@ def run_sequence(kind, seq):
     return viol, bool(completions and observed_after), len(notes)
 
 
+def outcome_of(fn):
+    try:
+        return ("val", fn())
+    except BaseException as e:
+        return ("exc", exc_desc(e))
+
+
 def run_scheduler_scenarios(res, c):
     """The same lazily computed future reached several times by the scheduler (listed twice in one yield,
     awaited by a parent and by its child, in every order and container): its provider runs once and every
@@ -531,6 +538,81 @@ def run_scheduler_scenarios(res, c):
                     {"oracle": v[0], "mechanism": v[0] + "/scheduler-reaches-future-twice", "detail": {"shape": shape, "raising_provider": raising, "violation": v[1]}, "case": {"mode": "scheduler", "cases": [0, 1]}}
                 )
     res["samples"].append({"scheduler scenarios": "one Future listed twice / awaited by parent and child, 10 shapes x {ok, raising}"})
+    # ---- a TASK as the future under observation: one of the tasks it awaits is suspended on a batch item, a sibling
+    # completes that batch behind the scheduler's back (nested synchronous call, item.value(), batch.flush()) in the
+    # same traversal; value() must hand back the outcome - the same one every time - and leave the task computed
+    for how in ("sync-call", "item.value", "batch.flush"):
+        for order in ("waiter-first", "flusher-first", "waiter-twice", "nested-waiter"):
+            asynq.scheduler.reset()
+            rt = harness.HarnessRT({"nodes": [], "kinds": 2})
+            notes = []
+            n = itertools.count()
+
+            @A()
+            def getter():
+                return (yield harness.HItem(rt, 0, "g%d" % next(n), ("c10t", "g")))
+
+            @A()
+            def waits():
+                v = yield harness.HItem(rt, 0, "w%d" % next(n), ("c10t", "w"))
+                return ("w", v)
+
+            @A()
+            def outer_waits():
+                return (yield waits.asynq())
+
+            @A()
+            def flusher():
+                if how == "sync-call":
+                    v = getter()
+                elif how == "item.value":
+                    v = harness.HItem(rt, 0, "f%d" % next(n), ("c10t", "f")).value()
+                else:
+                    it = harness.HItem(rt, 0, "f%d" % next(n), ("c10t", "f"))
+                    it.batch.flush()
+                    v = it.value()
+                return ("s", v)
+
+            @A()
+            def parent():
+                if order == "waiter-first":
+                    v = yield waits.asynq(), flusher.asynq()
+                elif order == "flusher-first":
+                    v = yield flusher.asynq(), waits.asynq()
+                elif order == "waiter-twice":
+                    v = yield waits.asynq(), flusher.asynq(), waits.asynq()
+                else:
+                    v = yield outer_waits.asynq(), flusher.asynq()
+                return v
+
+            rt.attach()
+            viol = []
+            try:
+                t = parent.asynq()
+                t.on_computed.subscribe(lambda f_: notes.append(f_.is_computed()))
+                v1 = outcome_of(t.value)
+                comp = t.is_computed()
+                v2 = outcome_of(t.value)
+                v3 = outcome_of(t)
+                if not comp:
+                    viol.append(("value()-returned-with-the-task-uncomputed", {"first_value": repr(v1)[:120]}))
+                if not (v1 == v2 == v3):
+                    viol.append(("task-reported-different-outcomes", {"first": repr(v1)[:100], "second": repr(v2)[:100], "call": repr(v3)[:100]}))
+                if v1[0] != "val" or not isinstance(v1[1], tuple) or [x[0] for x in v1[1] if isinstance(x, tuple)] != {"waiter-first": ["w", "s"], "flusher-first": ["s", "w"], "waiter-twice": ["w", "s", "w"], "nested-waiter": ["w", "s"]}[order]:
+                    viol.append(("task-outcome-is-not-what-its-body-returned", {"observed": repr(v1)[:160]}))
+                if notes != [True]:
+                    viol.append(("subscriber-notifications", {"expected": [True], "observed": notes}))
+            except BaseException as e:
+                viol.append(("scheduler-scenario-crashed", exc_desc(e)))
+            finally:
+                rt.detach()
+            res["evaluations"] += 1
+            res["nontrivial"].append(hash(("sched2", how, order)) & 0xFFFFFFFFFFFF)
+            c["scheduler_scenarios"] = c.get("scheduler_scenarios", 0) + 1
+            c["task_outcomes_after_a_flush_behind_the_schedulers_back"] = c.get("task_outcomes_after_a_flush_behind_the_schedulers_back", 0) + 1
+            for v in viol:
+                if len(res["violations"]) < 8:
+                    res["violations"].append({"oracle": v[0], "mechanism": v[0] + "/flush-behind-the-scheduler", "detail": {"how": how, "order": order, "violation": v[1]}, "case": {"mode": "scheduler", "cases": [0, 1]}})
 
 
 def run_unit(unit, progress):
